@@ -7,6 +7,7 @@ from lib import modcfg
 from lib.coreprop import core_shards, run_core_shard, replay_core
 
 ID = "C03"
+REQUIRED_CLASSES = ['close:tRAS/PREA', 'close:tRP/REF', 'close:tWR', 'close:tRCD', 'close:tRC', 'close:tWTR']      # classes that must occur in every run (else harness error: vacuous generator)
 LEVEL = "exploration"
 RULE = ("case = (library or generated module class, speedgrade, rate, controller clock, PHY settings, controller settings incl. refresh every 100-300 cycles in half the "
         "configurations; multi-port traffic biased to bank conflicts and direction changes); non-trivial = pairs within 2x their minimum were seen for >= 4 different "
